@@ -1,5 +1,6 @@
 import Nstd.Common.Basic
 import Nstd.Sha.Model
+import Nstd.Sha.ModelU2
 import Nstd.Sha.Spec
 /-
   Line protocol of the Sha area (property C17).  State: one hasher object.
@@ -14,6 +15,11 @@ import Nstd.Sha.Spec
      updatenull / hashnull / hmacnullkey <msg> / hmacnullmsg <key>
                       real side: the empty input is passed as (nullptr, 0); model side: the empty list
      setcount <n>     white box: `count = n` (n a multiple of 64 below 2^64; the buffer then holds nothing)
+     variant rolled|u2  which build configuration of Sha256.cpp the following `xform` lines model (a harness answers
+                      `ok` only for the configuration it was compiled in); `reset` returns to `rolled`   -> ok
+     xform <state32> <block64>   white box: one `Transform` call on an arbitrary chaining value: a scratch hasher gets
+                      `state` := the 8 big-endian words, count 0, `update(block)`; prints the 8 state words   -> <hex>
+                      (model side: the generated `Transform` of the selected configuration)
   A digest line is `FAULT` when the model's ghost flag recorded an out-of-range array read.
   The observable is the digest; `update`/`rst` print `ok` only.
 -/
@@ -34,9 +40,19 @@ def hmacLine (k m : List UInt8) : String :=
   let r := hmac k m
   digestLine r.2 r.1
 
-def stepLine (st : Sha) (ws : List String) : Sha × String :=
+/-- the words of a big-endian byte string (`xform`) -/
+def wordsOf (b : List UInt8) : List UInt32 :=
+  (List.range (b.length / 4)).map fun i =>
+    ((b.getD (4 * i) 0).toUInt32 <<< 24) + ((b.getD (4 * i + 1) 0).toUInt32 <<< 16) +
+    ((b.getD (4 * i + 2) 0).toUInt32 <<< 8) + (b.getD (4 * i + 3) 0).toUInt32
+
+/-- driver state: the hasher object and the selected build configuration -/
+structure DState where
+  sha : Sha
+  u2 : Bool
+
+def stepSha (st : Sha) (ws : List String) : Sha × String :=
   match ws with
-  | ["reset"] => (init, "ok")
   | ["rst"] => (reset st, "ok")
   | ["final"] => let r := finalize st; (r.2, digestLine r.2.ok r.1)
   | ["setcount", n] =>
@@ -75,6 +91,22 @@ def stepLine (st : Sha) (ws : List String) : Sha × String :=
     | _, _ => (st, "bad-op")
   | _ => (st, "bad-op")
 
+def stepLine (st : DState) (ws : List String) : DState × String :=
+  match ws with
+  | ["reset"] => ({ sha := init, u2 := false }, "ok")
+  | ["variant", "rolled"] => ({ st with u2 := false }, "ok")
+  | ["variant", "u2"] => ({ st with u2 := true }, "ok")
+  | ["xform", s, b] =>
+    match fromHex s, fromHex b with
+    | some s, some b =>
+      if s.length = 32 ∧ b.length = 64 then
+        let r := if st.u2 then transformU2 (wordsOf (toBytes s)) (data32 (toBytes b))
+                 else transform (wordsOf (toBytes s)) (data32 (toBytes b))
+        (st, digestLine r.2 (digestOf r.1))
+      else (st, "bad-op")
+    | _, _ => (st, "bad-op")
+  | _ => let r := stepSha st.sha ws; ({ st with sha := r.1 }, r.2)
+
 end Nstd.Sha
 
-def main : IO Unit := Nstd.Common.ioLoop Nstd.Sha.init Nstd.Sha.stepLine
+def main : IO Unit := Nstd.Common.ioLoop ({ sha := Nstd.Sha.init, u2 := false } : Nstd.Sha.DState) Nstd.Sha.stepLine
